@@ -1,3 +1,4 @@
+import GroupbyVerif.Generated.Constants
 import GroupbyVerif.Props.C04
 import GroupbyVerif.Props.C03
 
@@ -170,5 +171,10 @@ example :
     globalCodes s = [2, 0, -1, 1, 0] ∧
     globalCodes ([Op.reduce, .groupsLike, .rowAligned, .reduce].foldl step s) = [2, 0, -1, 1, 0] ∧
     ([Op.groupsLike].foldl step s).pointers = none ∧ ([Op.groupsLike, .rowAligned].foldl step s).flat = true := by decide
+
+/-- the unification loop of `GroupBy._unify_group_key_chunks` has the shape the model `unify` / `globalCodes` stands for
+(re-extracted from the AST of `core.py` on every run): every chunk is mapped through its pointer table at the non-null
+positions only and keeps `-1` elsewhere, with no fast path around it -/
+theorem source_unify_keeps_null_code : Generated.Constants.unifyKeepsNullCode = true := by decide
 
 end GV.C13
